@@ -70,6 +70,7 @@ type FuncContract struct {
 	AssumedEnsures []*Clause      // postconditions callers may use but the body check does not establish (listed as assumptions)
 	Splits         []*SplitSpec   // case splits applied to every proof obligation of the function
 	RecvType       types.Type     // set on a resolved "sameas" contract: the implementation's receiver type
+	ConstTexts     []string       // string constants that must occur verbatim in the function (configuration the assumed semantics rest on)
 	SameAs         string         // interface method contract = the contract of this implementation ("pkgpath.(*T).M"), assumed to be the dynamic callee
 	LazySpecs      bool           // at call sites, recursive spec functions in this contract are left folded (unfolded by the solver on demand)
 	Definitional   bool           // postconditions that pin the fresh result are applied as definitions (term rewriting) at call sites
@@ -233,7 +234,7 @@ func parseParams(s string) []SpecParam {
 	return out
 }
 
-var clauseKw = map[string]bool{"behavior": true, "ensuresassumed": true, "ensureslocal": true, "split": true, "definitional": true, "lazyspecs": true, "sameas": true, "set": true, "choose": true, "sqltext": true, "except": true, "allowcalls": true, "nocalls": true, "ensureserror": true, "ensureszero": true, "requires": true, "ensures": true, "modifies": true, "loop": true, "inline": true,
+var clauseKw = map[string]bool{"behavior": true, "ensuresassumed": true, "ensureslocal": true, "split": true, "definitional": true, "lazyspecs": true, "sameas": true, "consttext": true, "set": true, "choose": true, "sqltext": true, "except": true, "allowcalls": true, "nocalls": true, "ensureserror": true, "ensureszero": true, "requires": true, "ensures": true, "modifies": true, "loop": true, "inline": true,
 	"trusted": true, "pure": true, "opaque": true, "nonnil": true, "props": true, "maypanic": true, "params": true,
 	"assert": true, "call": true}
 
@@ -663,6 +664,14 @@ func (cs *ContractSet) ParseFile(path, pkgPath string) error {
 		case "sameas":
 			if cur != nil {
 				cur.SameAs = strings.TrimSpace(it.rest)
+			}
+		case "consttext":
+			if cur != nil {
+				t := strings.TrimSpace(it.rest)
+				if u, err := strconv.Unquote(t); err == nil {
+					t = u
+				}
+				cur.ConstTexts = append(cur.ConstTexts, t)
 			}
 		case "nocalls":
 			if cur != nil {
